@@ -35,6 +35,11 @@ CLAIMED = {
          "Every delivery order of up to k+1 held messages was executed for several capacities, reader plans and close modes, and random connections (ranged latencies that reorder segments, capacities from 1, three endpoint modes incl. peek, split and try_write, both directions, slow/late readers, hold/release, partitions, abortive closes, remote/same-host/loopback, v4/v6): every read and peek returned exactly the next bytes of the peer's accepted stream, EOF came only after the writer closed and all bytes were consumed, and on a healthy link with a graceful close all bytes and EOF arrived within a configuration-derived step budget.",
          "Bounded liveness (budget >= 10x the worst generated schedule); under partitions/abortive closes only the prefix half is asserted.",
          "DESIGN.md §6 C02"),
+ "C15": ("exploration",
+         "property-based testing (proptest) of bind/connect/accept/drop/crash sequences on a host with a 3-8 port ephemeral range against a port-set model, and of register/lookup/reverse/regex sequences over up to 600 names against a name->address map",
+         "No counterexample among generated operation sequences: every ephemeral port handed out (bind :0 for UDP and TCP listeners, outgoing connect) lay in the configured range and was not in use by a UDP socket, TCP listener or live stream of that host; explicit binds failed with AddrInUse exactly when the same protocol held the port; ports were reusable after drop, failed/cancelled connects and crash+bounce (the allocator never reported exhaustion while the model had a free port); names resolved to distinct, stable addresses inside the documented subnet with reverse lookup inverting the map and regex lookups selecting exactly the matching names, in v4 and v6 mode.",
+         "Port-0 requests are only issued while the model has a free port (exhaustion is a documented panic); double registration of a name (documented panic) is not generated.",
+         "DESIGN.md §6 C15"),
 }
 
 PENDING_REASON = "check not built yet in this round (planned, see DESIGN.md §6); not claimed until its check exists and has been shown silent on the unchanged tree"
